@@ -58,9 +58,30 @@ func genC10Sim(t *rapid.T) streamsCase {
 		st.S.Prog = []sOp{{K: "readall"}}
 		st.S.Prog2 = []sOp{{K: "quiet"}, {K: "close"}}
 	}
+	// afterwards the session itself may end (locally or through the peer) while the stream is in whatever close state it reached:
+	// the closure must still have been reported exactly once
+	if k := rapid.IntRange(0, 3).Draw(t, "sessionend"); k == 1 || k == 2 {
+		c.SessEnd = k
+	}
 	c.Streams = []sStream{st}
 	c.Sched = genSchedPlanHot(t, 8, 1500, 3, 150)
 	return c
+}
+
+func caseEndsSession(c streamsCase) bool {
+	if c.SessEnd != 0 {
+		return true
+	}
+	for _, st := range c.Streams {
+		for _, p := range [][]sOp{st.C.Prog, st.C.Prog2, st.S.Prog, st.S.Prog2} {
+			for _, op := range p {
+				if op.K == "sclose" {
+					return true
+				}
+			}
+		}
+	}
+	return false
 }
 
 func closedErr(s string) bool {
@@ -85,7 +106,8 @@ func judgeC10Sim(c streamsCase, h *streamsHist, r *runCtx) {
 			return
 		}
 		for k, ret := range eh.closeRet {
-			if ret != "<nil>" {
+			// (when the scenario ends a session, a Close that cannot notify the vanishing peer may say so)
+			if ret != "<nil>" && !caseEndsSession(c) {
 				r.Violf("%s end: Close call #%d returned %s%s", names[e], k, ret, tail())
 				return
 			}
